@@ -290,7 +290,7 @@ def k_table_select(R, m, exe, want_complete=True):
     if mem.get("selector") == "1":
         sel_lines = [f"@Frame select (seq (ident (int {i})))" for i in ids + unknown]
         sel_model = [f"c18sel {tbl_txt} {i}" for i in ids + unknown]
-        co, _ = ctx.run_c_bisect(exe, sel_lines)
+        co, _ = ctx.run_c_bisect(exe, sel_lines, env=FAST)
         mo2 = model_lines(ctx, sel_model)
         st = ctx.cov["correspondence"].setdefault("select", {"lines": 0, "disagreements": 0, "c_crashes": 0})
         for l, c, mdl in zip(sel_lines, co, mo2):
@@ -344,11 +344,17 @@ def check_module(R, m, exe, nvals, nmut, findings):
                 lines.append(f"@{row['name']} enc der {sx}"); meta.append(("rowder", row, fsx, None))
             if not c01.skip_region("uper", feats, collections.Counter()):
                 lines.append(f"@{row['name']} uperbits {sx}"); meta.append(("rowuper", row, (fsx, ex), None))
-    outs, _ = ctx.run_c_bisect(exe, lines)
+    outs = []; ncrash = 0
+    for i in range(0, len(lines), 100):
+        o_, c_ = ctx.run_c_bisect(exe, lines[i:i + 100], env=FAST)
+        outs += o_; ncrash += c_
+        if ncrash > 40:                     # a broken tree: do not spend minutes on bisecting hundreds of crashes
+            outs += ["SKIPPED"] * (len(lines) - len(outs)); break
     valid = []                     # (syn, row, frame sexp, hex, row der hex / uper bits)
     last_rt = {}
     for l, o, (kind, row, fsx, syn) in zip(lines, outs, meta):
         o = str(o)
+        if o == "SKIPPED": continue
         R.stats["cases"] += 1
         if o.startswith("CRASH"):
             R.fail(f"crash:{kind}:{syn}", m, l, o); continue
@@ -398,6 +404,9 @@ def check_module(R, m, exe, nvals, nmut, findings):
                     R.fail("uper-framing", m, l, o, {"frame_uper": h, "expected_prefix": pre, "expected_field": field[:200]})
                 else: R.stats["uper_framing_ok"] += 1
     tick("roundtrip")
+    if sum(R.fails.values()) > 150 or ncrash > 40:
+        R.stats["modules_cut_short_after_many_failures"] += 1       # a broken tree: the remaining stages only add crashes
+        return
     # ---------------- mismatches and unknown identifiers (P4, P5) + get-level correspondence (K2)
     # a syntax in which some row type has no codec at all (F32: SET under UPER) is left out of the mismatch /
     # mutation tests of this module: a mutated identifier could select that row
@@ -422,7 +431,7 @@ def check_module(R, m, exe, nvals, nmut, findings):
                 enc_lines.append(f"@Frame enc {syn} {fsx}"); enc_meta.append(("unknown", syn, u, rowj["name"], fsx))
     for syn, row, fsx, h in valid:
         if syn != "xer" and len(h) <= 3000: enc_meta.append(("valid", "cxer" if syn == "cxer" else syn, row["id"], row["name"], fsx)); enc_lines.append(f"@Frame enc {syn} {fsx}")
-    eouts, _ = ctx.run_c_bisect(exe, enc_lines)
+    eouts, _ = ctx.run_c_bisect(exe, enc_lines, env=FAST)
     dec_lines = []; dec_meta = []
     for l, o, me in zip(enc_lines, eouts, enc_meta):
         o = str(o)
@@ -456,7 +465,7 @@ def check_module(R, m, exe, nvals, nmut, findings):
             if syn == "uper": inner_lines.append(f"@{tname} oget {member or '-'}")
             else: inner_lines.append(f"@{tname} dec {'der' if syn == 'der' else 'xer'} {member}")
             inner_idx.append((k, tname, len(member)))
-    iouts, _ = ctx.run_c_bisect(exe, inner_lines)
+    iouts, _ = ctx.run_c_bisect(exe, inner_lines, env=FAST)
     tick("inner")
     inner = collections.defaultdict(dict)
     for (k, tname, mlen), l, o in zip(inner_idx, inner_lines, iouts):
@@ -697,9 +706,9 @@ def run(ctx):
     ctx.log("framing correspondence done")
     probe_shapes(R, findings)
     ctx.log("shapes probed")
-    nb = 10 if ctx.quick else 80
-    nvals = 4 if ctx.quick else 10
-    nmut = 1500 if ctx.quick else 12000
+    nb = 14 if ctx.quick else 80
+    nvals = 5 if ctx.quick else 10
+    nmut = 2500 if ctx.quick else 12000
     g = genmod_ioc.IocGen(ctx.rng)
     mods = []
     for i in range(nb):
@@ -707,7 +716,7 @@ def run(ctx):
         mods.append(g.gen_module(f"M{i}", "clean", nrows=nrows))
     # two modules whose rows all have size-led specifics: every crash there is a new defect (no F105 excuse)
     gs = genmod_ioc.IocGen(ctx.rng, safe_rows=True)
-    mods += [gs.gen_module(f"MS{i}", "clean") for i in range(3 if ctx.quick else 12)]
+    mods += [gs.gen_module(f"MS{i}", "clean") for i in range(4 if ctx.quick else 16)]
     built = 0
     for chunk in [mods[i:i + 8] for i in range(0, len(mods), 8)]:
         for m, b, exe, err in build_all(chunk):
